@@ -135,12 +135,14 @@ func VerifC02_Periodic() {
 		}
 		return time.Now().Add(period), nil
 	}
+	var lastStart int64
 	jobFunc := func(_ context.Context) {
 		inflight++
 		if inflight > maxInflight {
 			maxInflight = inflight
 		}
 		runs++
+		lastStart = vnd.NowNs()
 		vnd.Sleep(work)
 		inflight--
 	}
@@ -148,11 +150,13 @@ func VerifC02_Periodic() {
 	vnd.Assert(err == nil, "C02.periodic.accepted")
 	withRun := vnd.Bool("with-runjob")
 	var runErr error
+	var askedAt int64
 	returned := false
 	if withRun {
 		d := c02Delay("runjob.at")
 		go func() {
 			vnd.Sleep(d)
+			askedAt = vnd.NowNs()
 			runErr = s.RunJob(ctx, "tick")
 			returned = true
 		}()
@@ -166,6 +170,10 @@ func VerifC02_Periodic() {
 		vnd.Assert(returned, "C02.periodic.runjob-returns")
 		if runErr == nil {
 			vnd.Cover("C02.periodic.early-run")
+			// (the property promises "success means the job runs" for one-off jobs only: an early-run
+			// request accepted at the very instant a periodic job takes its last tick, or ends its last
+			// run, is lost with the job - DESIGN section 6, observation - so nothing is asserted here)
+			_, _ = lastStart, askedAt
 		}
 	}
 	vnd.Assert(!s.JobExists(ctx, "tick"), "C02.periodic.job-table-empty-afterwards")
@@ -355,4 +363,54 @@ func VerifC02_CancelReschedule() {
 		vnd.Assert(thenErr == nil && runs[1] == 1, "C02.resched.replacement-started-early-runs-once")
 	}
 	vnd.Assert(!s.JobExists(ctx, "job"), "C02.resched.job-table-empty-afterwards")
+}
+
+// VerifC02_PeriodicEarlyThenCancel: a periodic job (two-hour period, three more ticks to come) is
+// started early within its first hour - through RunJob, through RunJobIfExists (what the controller
+// uses for its jobs), or not at all - and is afterwards either left alone or cancelled, clearly
+// before its next tick. Left alone it keeps ticking after the early run; cancelled it never runs
+// again. Nothing is left blocked either way.
+func VerifC02_PeriodicEarlyThenCancel() {
+	s := c02New()
+	ctx := context.Background()
+	period := 2 * time.Hour
+	consulted, runs := 0, 0
+	runtimeFunc := func(_ context.Context) (time.Time, error) {
+		consulted++
+		if consulted > 3 {
+			return time.Time{}, schedulerErrNoMoreInstances()
+		}
+		return time.Now().Add(period), nil
+	}
+	err := s.SchedulePeriodicJob(ctx, "class", "tick", runtimeFunc, func(_ context.Context) { runs++ })
+	vnd.Assert(err == nil, "C02.periodic2.accepted")
+	vnd.Sleep(c02Delay("early.at"))
+	how := vnd.Choose("early-run-by", 3)
+	switch how {
+	case 1:
+		vnd.Assert(s.RunJob(ctx, "tick") == nil, "C02.periodic2.early-run-of-a-waiting-job-accepted")
+	case 2:
+		s.RunJobIfExists(ctx, "tick")
+	}
+	vnd.Sleep(time.Second) // the early run, if any, happens now: the next tick is an hour or more away
+	early := 0
+	if how != 0 {
+		early = 1
+		vnd.Cover("C02.periodic2.early-run")
+	}
+	vnd.Assert(runs == early, "C02.periodic2.early-run-runs-the-job-once-and-only-when-asked")
+	if vnd.Bool("cancelled-afterwards") {
+		cerr := s.CancelJob(ctx, "tick")
+		left := vnd.Quiesce()
+		vnd.Assert(left == 0, "C02.periodic2.no-goroutine-left-blocked")
+		vnd.Assert(runs == early, "C02.periodic2.cancelled-clearly-before-its-next-tick-never-runs-again")
+		vnd.Assert(cerr == nil, "C02.periodic2.cancel-of-a-ticking-job-succeeds")
+		vnd.Cover("C02.periodic2.cancelled")
+	} else {
+		left := vnd.Quiesce()
+		vnd.Assert(left == 0, "C02.periodic2.no-goroutine-left-blocked")
+		vnd.Assert(runs > early, "C02.periodic2.keeps-ticking-after-an-early-run")
+		vnd.Assert(consulted == 4, "C02.periodic2.ticks-until-no-more-instances")
+	}
+	vnd.Assert(!s.JobExists(ctx, "tick"), "C02.periodic2.job-table-empty-afterwards")
 }
